@@ -888,9 +888,12 @@ ACCOUNTS = ["acct", "acct:123:4", "acctx:9", "acc", "acc:7", "ACCT", "a", "acct2
 ACCOUNT_PATS = ["*", "acct", "acc", "acctx", "ac*", "?cct", "ACCT", "nomatch", "acct:123", "a\\cct", "acct*", "*t", "a", "acc?t", "*\xe9*", "ac%ct", "ACC\xc9T",
                 "*-staff", "bartholomew-staff", "bartholomew-h*", "bartholomew-s", "a" * 64, "a" * 63 + "?"]
 HOSTS = ["host.example", "host.exampl", "Host.Example", "a.b.example", "example", "h\xf6st.example"]
-HOST_PATS = ["*", "*.example", "host.example", "host.exampl", "host.example.", "HOST.EXAMPLE", "nomatch", "host.*", "?ost.example", "h?st.example", "H\xd6ST.EXAMPLE", "h\xf6st.*"]
+HOST_PATS = ["*", "*.example", "host.example", "host.exampl", "host.example.", "HOST.EXAMPLE", "nomatch", "host.*", "?ost.example", "h?st.example", "H\xd6ST.EXAMPLE", "h\xf6st.*",
+             # a backslash quotes the next byte also where no wildcard is in sight (seeded change C11-12x9
+             # compared patterns without * ? [ with strcmp)
+             "host\\.example", "h\\ost.example", "a\\.b.example"]
 IDENTS = ["ident", "iden", "identx", "~ident", "IDENT"]
-IDENT_PATS = ["*", "ident", "iden", "identx", "~*", "id*", "IDENT", "?dent"]
+IDENT_PATS = ["*", "ident", "iden", "identx", "~*", "id*", "IDENT", "?dent", "iden\\t", "\\~ident", "i\\dent"]
 CADDRS = ["1.2.3.4", "1.2.3.5", "1.2.255.255", "1.3.0.0", "10.0.0.1", "0::102:304", "0::ffff:1.2.3.4", "2001:db8::1", "2001:db9::1", "0::1"]
 ADDR_PATS = ["0.0.0.0/0", "0.0.0.0/1", "0::/8", "0::/0", "0::/96", "0::ffff:0.0.0.0/96", "0.0.0.0/8", "0.*", "1.2.3.4/32", "1.2.3.4", "1.2.0.0/16", "1.2.3.0/24", "1.2.3.4/31", "1.*", "1.2.*", "10.*", "2001:db8::/32", "2001:db8::/31",
              "2001:db8:*", "*", "0::/0", "9.9.9.9", "bogus/99", "0::ffff:1.2.3.4/128", "0::102:304"]
@@ -1544,6 +1547,28 @@ def _gen_cases(prop, tier, seed):
                     probe = {cid: client_script(rng, cid, new, mods) for cid in rng.sample([1, 2, 5, 7], 2)}
                     probe = {cid: [e for e in ev if not (e[0] == "reply" and e[4] not in ("cur", "stale"))] for cid, ev in probe.items()}
                     pops = render_schedule(rng, probe) + [inl("-1 ? :config")]
+            if i % 12 == 4:
+                # a rule that asks whether a service vouched, while the file does not name that service
+                # yet; a client is served in that state; then a reload adds the service (seeded change
+                # C17-12x12 remembered "no such service" for the last name looked up)
+                mods = "class"
+                late, other = rng.choice([("vouch.srv", "b.srv"), ("alpha.srv", "zeta.srv"), ("login.srv", "drone.srv")])
+                ty = rng.choice(["dronecheck", "login"])
+                rules = [("a", [("class", "members"), ("xreply_ok", late)]), ("z", [("class", "users")])]
+                old = Cfg(timeout=0, services=[(other, "dronecheck")], rules=rules)
+                new = Cfg(timeout=0, services=sorted([(other, "dronecheck"), (late, ty)]), rules=rules)
+                chain = [new]
+                data = [("line", "N host.example"), ("line", "u ident"), ("line", "n nick"), ("line", "U user :real name")]
+                pev = [("C", "10.9.9.9", "999")] + data + [("reply", "X", other, "OK", "cur"), ("line", "H")]
+                pre = render_schedule(rng, {9: pev})
+                probe = {}
+                for cid in rng.sample([1, 2, 5, 7], 2):
+                    ev = [("C", rng.choice(CADDRS), "1234")] + data
+                    if ty == "login":
+                        ev.insert(1, ("line", "P :+x acct pass"))
+                    ev += [("reply", "X", late, "OK acct" if ty == "login" else "OK", "cur"), ("reply", "X", other, "OK", "cur"), ("line", "H")]
+                    probe[cid] = ev
+                pops = render_schedule(rng, probe) + [inl("-1 ? :config")]
             if i % 12 == 2 or i % 12 == 10:
                 # a protocol word the module does not know (a typing slip: the entry is listed, its
                 # service is dropped again) that the next file corrects in place - and nothing else
